@@ -117,10 +117,14 @@ Proof.
   - by rewrite <- Permutation_middle, IH.
 Qed.
 
+Lemma acct_with_lk st k : acct (with_lk st k) = acct st.
+Proof. done. Qed.
+
 Lemma arrive_metrics_acct lg st es peek :
   acct (arrive_metrics lg st es peek) ≡ₚ acct st ++ (IM <$> es).
 Proof.
-  unfold arrive_metrics. rewrite fold_park_metric_acct, push_down_acct, <- app_assoc.
+  unfold arrive_metrics, close_group, open_group.
+  rewrite acct_with_lk, fold_park_metric_acct, acct_with_lk, push_down_acct, <- app_assoc.
   by rewrite hits_misses_split.
 Qed.
 
@@ -155,16 +159,21 @@ Proof.
   rewrite !(assoc_L (++)). apply Permutation_app_tail, Permutation_app_comm.
 Qed.
 
-Lemma step_acct lg st l st' : step_gen lg st l = Some st' → acct st' ≡ₚ acct st ++ items_of l.
+Lemma arm_acct lg st l st' : arm lg st l = Some st' → acct st' ≡ₚ acct st ++ items_of l.
 Proof.
   destruct l as [es peek|e peek|s|s io|]; cbn; intros H.
   - injection H as <-. apply arrive_metrics_acct.
   - injection H as <-. apply arrive_event_acct.
-  - destruct (bool_decide (s ∈ toLookup st)); [|done]. injection H as <-. by rewrite app_nil_r.
-  - injection H as <-. rewrite app_nil_r.
-    change (acct (answer ?x s)) with (acct x).
-    by rewrite release_events_acct, release_metrics_acct.
+  - destruct (lk_send s (lk st)); [|done]. injection H as <-. by rewrite app_nil_r.
+  - injection H as <-. rewrite app_nil_r. unfold answer.
+    by rewrite acct_with_lk, release_events_acct, release_metrics_acct.
   - injection H as <-. by rewrite app_nil_r.
+Qed.
+
+Lemma step_acct lg st l st' : step_gen lg st l = Some st' → acct st' ≡ₚ acct st ++ items_of l.
+Proof.
+  unfold step_gen. destruct (arm lg st l) as [s1|] eqn:E; [|done]. intros [= <-].
+  unfold refill. rewrite acct_with_lk. by apply (arm_acct lg).
 Qed.
 
 Lemma run_acct lg ls : ∀ s0 st, run (step_gen lg) s0 ls = Some st → acct st ≡ₚ acct s0 ++ items_in ls.
